@@ -46,12 +46,22 @@ func (o *Obligation) queryText(forCVC5 bool) string {
 	} else {
 		sb.WriteString("(set-option :produce-models true)\n")
 	}
-	sb.WriteString(preludeText)
+	if o.Cover {
+		sb.WriteString(preludeNoQuant)
+	} else {
+		sb.WriteString(preludeText)
+	}
 	for _, d := range o.Enc.decls {
+		if o.Cover && strings.HasPrefix(d, "(assert (forall") {
+			continue
+		}
 		sb.WriteString(d)
 		sb.WriteByte('\n')
 	}
 	for _, l := range o.Enc.body[:o.Prefix] {
+		if o.Cover && strings.HasPrefix(l, "(assert (forall") {
+			continue
+		}
 		sb.WriteString(l)
 		sb.WriteByte('\n')
 	}
